@@ -1269,12 +1269,12 @@ def detect_cfg2(run: Run) -> str:
     return share + leak
 
 
-FLAG_TAGS = [('stale', 'F16'), ('scope', 'F05'), ('arity', 'F16e'), ('focus', 'F16f')]
+FLAG_TAGS = [('stale', 'F16'), ('scope', 'F05'), ('arity', 'F16e')]
 
 
 def parse_answer(ans: str):
     parts = dict(p.split('=', 1) for p in ans.split(' ') if '=' in p)
-    return parts.get('model'), parts.get('flags', '0000'), parts.get('spec')
+    return parts.get('model'), parts.get('flags', '000'), parts.get('spec')
 
 
 TREES: dict[str, tuple] = {}
@@ -1436,6 +1436,12 @@ CORPUS = [
     ('sortK', seq(('slit', 'b'), ('slit', 'a'), ('slit', 'B'), ('slit', 'A'), ('slit', 'ab'), ('slit', '')), fn([0], V(0))),
     ('sortK', seq(('slit', 'b'), ('slit', 'a'), ('slit', 'B'), ('slit', 'A')), fn([0], V(0)), 'asciici'),
     ('sortK', seq(('slit', 'b'), ('slit', 'a'), ('slit', 'B'), ('slit', 'A')), fn([0], V(0)), 'codepoint'),
+    # the focus is absent in a function body (F16f repaired)
+    ('smap', seq(L(7), L(8)), ('call', fn([], ('dot',)), [])),
+    ('smap', seq(L(7), L(8)), ('call', fn([], ('pos',)), [])),
+    ('smap', seq(L(7), L(8)), ('call', ('call', fn([], ('named', 'data')), []), [])),
+    ('smap', seq(L(7), L(8)), ('call', fn([1], V(1)), [('dot',)])),
+    ('smap', seq(L(7), L(8)), ('call', fn([], ('smap', seq(L(3), L(4)), ('pos',))), [])),
     # F16h: predicate result as a one-item sequence
     ('filter', seq(L(1), L(2), L(3)), fn([0], ('let', 1, V(0), ('gt', V(1), L(1))))),
     # arity
